@@ -248,10 +248,13 @@ func c02Scenarios() []histParams {
 
 func init() {
 	All["C02"] = func() int {
-		return runHistCheck(histCheck{prop: "C02", scenarios: c02Scenarios(), depthQ: 5, depthT: 8, statesQ: 300000, statesT: 5000000,
+		rep := core.NewReport("C02", "model_checking")
+		histCheckInto(rep, histCheck{prop: "C02", scenarios: c02Scenarios(), depthQ: 5, depthT: 8, statesQ: 300000, statesT: 5000000,
 			budgetQ: 150 * time.Second, budgetT: 25 * time.Minute,
 			rule:   "explicit-state BFS over sequences of messages the trusted connection sends after a normal handshake: headers messages with lists drawn from a tree (trunk, fork at a processed block, fork among pending blocks, fork below the start block, duplicates, gaps, unknown parents, empty) and block messages (requested, unrequested, duplicate, unknown), with block-processor steps (tick) anywhere; after every event: every stored block links to the block below, Hash/Height inverse in both directions (private map read by reflection), HandleHeaders heights form a chain on a shadow list; no panic. Second scenario: start block hash not on the initial chain (pre-start header mode).",
 			assume: []string{"no assumption on the peer's behaviour beyond well-formed wire messages", "hist mode: canonical thread schedule between events"}})
+		repoConc(rep, "C02")
+		return rep.Finish()
 	}
 	Replayers["C02"] = func(wit json.RawMessage) []core.Violation { return histReplay(wit, "C02") }
 	debugScenarios["C02"] = c02Scenarios
